@@ -1106,6 +1106,8 @@ def c09(tier, seed):
         for sub in ("pop_back", "pop_front", "append", "prepend", "split1", "split1024"):
             bigs.append({"case": "big", "prop": "C09", "d": {"op": "bigseq", "shape": shape, "sub": sub, "arg": 0}})
     c.conform(binary, bigs, "very-long-arrays", sub="big")
+    # arrays of zero-sized elements longer than 32 bits / than isize::MAX (every operation is O(1) there)
+    c.conform(binary, [{"case": "big", "prop": "C09", "d": {"op": "zstseq", "shape": s}} for s in ("2^32", "2^32+5", "2^63")], "huge-zst-arrays", sub="big")
     rows = views_from_model(c, "MC_Views", lambda d: d["api"] in ("split_ref", "split_mut"))
     vs = []
     for d in rows:
